@@ -145,10 +145,29 @@ pub fn run(ctx: &Ctx) -> Report {
                 status[i] = if r.chance(1, 3) { Status::Reserved(r.range(1, 3) as usize) } else { Status::Missing };
             }
             let density = r.range(1, 9);
-            let peers: Vec<Vec<bool>> = (0..npeers).map(|_| (0..n).map(|_| r.chance(density, 10)).collect()).collect();
+            let mut peers: Vec<Vec<bool>> = (0..npeers).map(|_| (0..n).map(|_| r.chance(density, 10)).collect()).collect();
+            // some pieces are announced by Have messages later on, at a moment when the piece is being
+            // fetched from somebody else (or owned for the moment); the advertised set is bitfield + Haves
+            let mut later: Vec<(usize, usize, Status)> = vec![];
+            if r.chance(1, 2) {
+                for _ in 0..r.range(1, 6) {
+                    let (p, i) = (r.usize(npeers), r.usize(n));
+                    if !peers[p][i] { later.push((p, i, match r.below(3) { 0 => Status::Missing, 1 => Status::Reserved(1), _ => Status::Reserved(2) })); }
+                }
+            }
+            for (p, i, _) in &later { peers[*p][*i] = true; }
+            let bitfields: Vec<Vec<bool>> = (0..npeers).map(|p| (0..n).map(|i| peers[p][i] && !later.iter().any(|l| l.0 == p && l.1 == i)).collect()).collect();
+            if !later.is_empty() { rep.count("states_with_pieces_announced_by_have", 1); }
             let res = catch(|| rt.block_on(async {
                 let mut s = Session::new(dummy_metainfo(n), *b"AAAAABBBBBCCCCCDDDDD");
-                for p in 0..npeers { s.verif_add_peer(&format!("p{}", p), None); let _ = send_bitfield(&mut s, &format!("p{}", p), &peers[p]).await; }
+                for p in 0..npeers { s.verif_add_peer(&format!("p{}", p), None); let _ = send_bitfield(&mut s, &format!("p{}", p), &bitfields[p]).await; }
+                for (p, i, st) in &later {
+                    if status[*i] == Status::Have { continue; }
+                    s.verif_set_status(*i, st.clone());
+                    let (tx, rx) = oneshot::channel();
+                    s.verif_handle(PeerCmd::RecvHave { addr: format!("p{}", p), piece_index: *i, resp_ch: tx }).await.unwrap();
+                    let _ = rx.await;
+                }
                 for i in 0..n { s.verif_set_status(i, status[i].clone()); }
                 let mut out = vec![];
                 for _ in 0..4 {
@@ -239,7 +258,10 @@ pub fn run_c14_direct(ctx: &Ctx, rep: &mut Report) {
                         s.verif_add_peer(&a, None);
                         alive.insert(*p, true);
                         folds.insert(a.clone(), Fold { choked: true, bad: None });
-                        match send_bitfield(&mut s, &a, &vec![false; n]).await {
+                        // in the leeching modes some peers own pieces: the client is then interested in
+                        // them and they stay connected after telling us that they are not interested
+                        let bits: Vec<bool> = if seeding || (*p % 3 == 0) { vec![false; n] } else { (0..n).map(|i| (i + *p) % 2 == 0).collect() };
+                        match send_bitfield(&mut s, &a, &bits).await {
                             BitfieldCmd::SendState { with_am_unchoked, .. } => if with_am_unchoked {
                                 let f = folds.get_mut(&a).unwrap();
                                 if !f.choked { f.bad = Some("Unchoke sent to an already unchoked peer".into()); }
